@@ -9,6 +9,12 @@
 // with recdrv.ErrInjected; ROLLBACK and ROLLBACK TO are never faulted). The
 // program is executed against gorm in lock step with a snapshot-stack
 // reference model.
+//
+// panic(nil) is one of the ways a block can end; keep its pre-1.21 meaning
+// (recover() == nil), which is what gorm's own module (go 1.18) gets and what
+// DB.Transaction's `panicked` flag exists for.
+//
+//go:debug panicnil=1
 package c04
 
 import (
@@ -16,6 +22,7 @@ import (
 	"database/sql"
 	"errors"
 	"fmt"
+	"runtime"
 	"sort"
 	"strings"
 	"testing"
@@ -32,6 +39,13 @@ import (
 )
 
 func TestMain(m *testing.M) { harness.Main(m) }
+
+// panicNilIsNil: the //go:debug panicnil=1 directive above is in effect.
+var panicNilIsNil = func() (isNil bool) {
+	defer func() { isNil = recover() == nil }()
+	var v interface{}
+	panic(v)
+}()
 
 // ---- the table ------------------------------------------------------------------------------
 
@@ -56,6 +70,7 @@ const (
 	opSP     = "sp"     // SavePoint(name)
 	opRBTo   = "rbto"   // RollbackTo(name) (a save point made earlier in the same block)
 	opBlock  = "block"  // handle.Transaction(func(tx) error {…})
+	opBatch  = "batch"  // CreateInBatches(&rows, size): a library operation that opens its own (nested) Transaction block
 	opManual = "manual" // tx := db.Begin(); …; tx.Commit() / tx.Rollback()   (top level only)
 )
 
@@ -97,6 +112,8 @@ const (
 	outNil      = "nil"      // return nil
 	outErr      = "err"      // return error E(block id)
 	outPanic    = "panic"    // panic(P(block id))
+	outPanicNil = "panicnil" // panic(nil)
+	outGoexit   = "goexit"   // runtime.Goexit() (what t.FailNow does): the whole goroutine unwinds
 	outCommit   = "commit"   // manual: tx.Commit()
 	outRollback = "rollback" // manual: tx.Rollback()
 )
@@ -109,8 +126,10 @@ type Step struct {
 	Via     int    // 0: the step goes through the block's own handle; n: through the handle of the n-th enclosing block (a captured variable – the same database transaction)
 	Sess    string // "" or the kind of session derived from the chosen handle through which the step is issued (same transaction)
 	Name    string // save point name
+	Rows    []KV   // batch: the rows
+	Size    int    // batch: the batch size
 	Child   *Body
-	Swallow bool // block: the parent ignores the child's error and goes on (otherwise it returns it)
+	Swallow bool // block / batch: the parent ignores the child's error and goes on (otherwise it returns it)
 	Recover bool // block: the parent recovers a panic of the child and goes on (otherwise it propagates)
 }
 
@@ -183,6 +202,20 @@ func (s Step) render(sb *strings.Builder) {
 		}
 	case opRead:
 		sb.WriteString("read")
+	case opBatch:
+		sb.WriteString("batch[")
+		for i, r := range s.Rows {
+			if i > 0 {
+				sb.WriteString(",")
+			}
+			fmt.Fprintf(sb, "%s=%d", r.K, r.V)
+		}
+		fmt.Fprintf(sb, "/%d]", s.Size)
+		if s.Swallow {
+			sb.WriteString("/swallow")
+		} else {
+			sb.WriteString("/return")
+		}
 	case opSP, opRBTo:
 		fmt.Fprintf(sb, "%s(%s)", s.Op, s.Name)
 	case opBlock:
@@ -277,6 +310,18 @@ func (w *walker) steps(b *Body, kind int) int {
 			}
 		case opRawPut, opRead:
 			w.stmts++
+		case opBatch:
+			nb := (len(st.Rows) + st.Size - 1) / st.Size
+			w.stmts += nb
+			blockMode := !w.cfg.SkipDef && nb > 1
+			if kind == frTop {
+				if !w.cfg.SkipDef {
+					w.begins++
+					w.commits++
+				}
+			} else if blockMode && !w.cfg.NoNest {
+				w.sps = append(w.sps, spEvent{nested: true, parent: b, parentKind: kind, stepIdx: i})
+			}
 		case opSP:
 			w.sps = append(w.sps, spEvent{})
 		case opRBTo:
@@ -322,13 +367,18 @@ func (w *walker) steps(b *Body, kind int) int {
 			if o == 2 && !st.Recover {
 				return 2
 			}
+			if o == 3 {
+				return 3
+			}
 		}
 	}
 	switch b.Out {
 	case outErr:
 		return 1
-	case outPanic:
+	case outPanic, outPanicNil:
 		return 2
+	case outGoexit:
+		return 3
 	}
 	return 0
 }
@@ -391,6 +441,7 @@ type runner struct {
 	nStmt     int
 	harnessEr string
 
+	goexit  bool           // the program has called runtime.Goexit: the goroutine is unwinding
 	handles []*gorm.DB     // handles of the blocks that are running, outermost first
 	active  []*activeBlock // Transaction blocks that are running
 }
@@ -563,6 +614,109 @@ func (x *runner) primitive(h *gorm.DB, st Step, where string) error {
 	return nil
 }
 
+// batch runs CreateInBatches on h. With more than one batch and default
+// transactions on, the call is a Transaction block of its own: the outermost one
+// on the root handle (BEGIN … COMMIT), a nested one (SAVEPOINT) inside a
+// transaction. A batch fails when the injected fault hits it or when one of its
+// keys is already in the table (UNIQUE constraint: the INSERT statement has no
+// effect, SQLite keeps the transaction open). It returns whether the call failed.
+func (x *runner) batch(h *gorm.DB, st Step, where string, inTx bool) (bool, error) {
+	x.class("op:batch")
+	what := fmt.Sprintf("%s %s", where, stepString(st))
+	rows := append([]KV(nil), st.Rows...)
+	nb := (len(rows) + st.Size - 1) / st.Size
+	part := func(j int) []KV {
+		end := (j + 1) * st.Size
+		if end > len(rows) {
+			end = len(rows)
+		}
+		return st.Rows[j*st.Size : end]
+	}
+	predicted := nb // first batch that violates the primary key
+	tmp := clone(x.cur)
+	for j := 0; j < nb && predicted == nb; j++ {
+		for _, r := range part(j) {
+			if _, dup := tmp[r.K]; dup {
+				predicted = j
+				break
+			}
+			tmp[r.K] = r.V
+		}
+	}
+	start := len(x.db.Rec.Events())
+	res := h.CreateInBatches(&rows, st.Size)
+	fired := x.takeFired()
+	okB := 0
+	for _, e := range x.db.Rec.Events()[start:] {
+		if (e.Kind == recdrv.Exec || e.Kind == recdrv.Query) && e.Err == nil && strings.HasPrefix(strings.ToUpper(strings.TrimSpace(e.Text)), "INSERT") {
+			okB++
+		}
+	}
+	apply := func(n int) {
+		for j := 0; j < n; j++ {
+			for _, r := range part(j) {
+				x.cur[r.K] = r.V
+			}
+		}
+		if n > 0 {
+			x.wrote()
+		}
+	}
+	blockMode := !x.c.Cfg.SkipDef && nb > 1
+	if blockMode {
+		x.class("batch:own-transaction-block")
+	}
+	if !fired && predicted == nb {
+		if res.Error != nil {
+			x.violate("%s: unexpected error %q (no fault was injected, no key repeats)", what, res.Error)
+			return false, nil
+		}
+		if okB != nb {
+			x.violate("%s: %d successful INSERT statements, want %d batches", what, okB, nb)
+		}
+		apply(nb)
+		return false, nil
+	}
+	x.noteFailure()
+	err := res.Error
+	if fired {
+		x.class("fault-hit:in-" + x.faultHit)
+		x.class("batch:fails-by-fault")
+		if err == nil {
+			x.violate("%s: a driver call failed with the injected fault but CreateInBatches reported no error", what)
+			err = recdrv.ErrInjected
+		} else if !errors.Is(err, recdrv.ErrInjected) {
+			x.violate("%s: returned error %q which is not the injected driver error", what, err)
+		}
+	} else {
+		x.class("batch:fails-by-constraint")
+		if err == nil {
+			x.violate("%s: batch %d repeats a key of the table but CreateInBatches reported no error", what, predicted+1)
+			err = errors.New("missing constraint error")
+		}
+		if okB != predicted {
+			x.violate("%s: %d successful INSERT statements before the failing batch, want %d", what, okB, predicted)
+			okB = predicted
+		}
+	}
+	if okB > 0 {
+		x.class("batch:fails-after-an-earlier-batch-succeeded")
+	}
+	stay := okB // batches whose rows stay (in the transaction / durable) after the failed call
+	if inTx {
+		if blockMode && !x.c.Cfg.NoNest {
+			stay = 0 // its own nested block: ROLLBACK TO its save point
+		}
+	} else if blockMode || !x.c.Cfg.SkipDef {
+		stay = 0 // its own outermost block, or a single Create in its default transaction
+	}
+	if okB > 0 && stay == 0 {
+		x.class("batch:earlier-batches-undone")
+	}
+	apply(stay)
+	return true, err
+}
+
 // runSteps is the function body of block b running on handle h. It returns
 // what the block function returns and panics with *panicVal for outcome panic.
 func (x *runner) runSteps(own *gorm.DB, b *Body, fr *frame) error {
@@ -629,6 +783,17 @@ func (x *runner) runSteps(own *gorm.DB, b *Body, fr *frame) error {
 			}
 			x.cur = clone(fr.sps[idx].snap)
 			fr.sps = fr.sps[:idx+1]
+		case opBatch:
+			failed, err := x.batch(h, st, where, true)
+			if failed {
+				if !st.Swallow {
+					return err
+				}
+				x.class("parent:swallows-batch-error")
+				if e := x.read(base, where+" (handle after failed CreateInBatches)"); e != nil {
+					return e
+				}
+			}
 		case opBlock:
 			kind, v, pv := x.callBlock(h, st.Child, false)
 			switch kind {
@@ -662,6 +827,14 @@ func (x *runner) runSteps(own *gorm.DB, b *Body, fr *frame) error {
 	case outPanic:
 		x.class("outcome:panic")
 		panic(&panicVal{b.ID})
+	case outPanicNil:
+		x.class("outcome:panic(nil)")
+		var nilValue interface{}
+		panic(nilValue)
+	case outGoexit:
+		x.class("outcome:goexit")
+		x.goexit = true
+		runtime.Goexit()
 	}
 	return nil
 }
@@ -709,128 +882,159 @@ func (x *runner) callBlock(h *gorm.DB, child *Body, root bool) (int, error, inte
 		outPanicked bool
 		outPanic    interface{}
 	)
-	func() {
-		defer func() {
-			if r := recover(); r != nil {
-				outPanicked, outPanic = true, r
-			}
-		}()
-		cerr = h.Transaction(func(tx *gorm.DB) (e error) {
-			entered++
-			defer func() {
-				if r := recover(); r != nil {
-					fcPanicked, fcPanic = true, r
-					panic(r)
-				}
-			}()
-			e = x.runSteps(tx, child, &frame{kind: frNested})
-			fcRet = e
-			return e
-		})
+	// (panics are detected with flags, not by the recovered value: panic(nil) recovers as nil)
+	finished := false
+	var finish func() (int, error, interface{})
+	defer func() {
+		if !finished && x.goexit {
+			finish() // Goexit is unwinding through this frame: do the model's bookkeeping on the way
+		}
 	}()
-	fired := x.takeFired()
-	undo := root || !x.c.Cfg.NoNest
-	if root {
-		x.class("block:outermost")
-	} else if x.c.Cfg.NoNest {
-		x.class("block:nested-disabled")
-	} else {
-		x.class("block:nested-savepoint")
-	}
-	if entered > 1 {
-		x.violate("%s: the block function ran %d times", where, entered)
-	}
-	switch {
-	case entered == 0:
-		// BEGIN / SAVEPOINT failed: the error must come back, nothing ran
-		x.noteFailure()
-		if !fired {
+	finish = func() (int, error, interface{}) {
+		fired := x.takeFired()
+
+		undo := root || !x.c.Cfg.NoNest
+		if root {
+			x.class("block:outermost")
+		} else if x.c.Cfg.NoNest {
+			x.class("block:nested-disabled")
+		} else {
+			x.class("block:nested-savepoint")
+		}
+		if entered > 1 {
+			x.violate("%s: the block function ran %d times", where, entered)
+		}
+		switch {
+		case entered == 0:
+			// BEGIN / SAVEPOINT failed: the error must come back, nothing ran
+			x.noteFailure()
+			if !fired {
+				if outPanicked {
+					x.violate("%s: panicked with %v before running the block function", where, outPanic)
+					return 2, nil, outPanic
+				}
+				x.violate("%s: the block function never ran although no fault was injected (returned %v)", where, cerr)
+				if cerr == nil {
+					return 0, nil, nil
+				}
+				return 1, cerr, nil
+			}
+			x.class("fault-hit:" + x.faultHit)
 			if outPanicked {
-				x.violate("%s: panicked with %v before running the block function", where, outPanic)
+				x.violate("%s: injected %s fault turned into panic %v", where, x.faultHit, outPanic)
 				return 2, nil, outPanic
 			}
-			x.violate("%s: the block function never ran although no fault was injected (returned %v)", where, cerr)
+			if !errors.Is(cerr, recdrv.ErrInjected) {
+				x.violate("%s: %s failed with the injected error but Transaction returned %v", where, x.faultHit, cerr)
+				cerr = recdrv.ErrInjected
+			}
+			return 1, cerr, nil
+		case x.goexit:
+			// the block function ended its goroutine: nothing of the block may stay
+			failedAfterInner()
+			x.noteFailure()
+			if fired {
+				x.harnessEr = "fault fired after Goexit"
+			}
+			if undo {
+				x.cur = snap
+			}
+			return 3, nil, nil
+		case fcPanicked:
+			failedAfterInner()
+			x.noteFailure()
+			if fired {
+				x.harnessEr = "fault fired after a panicking block function"
+			}
+			if undo {
+				x.cur = snap
+			}
+			if !outPanicked {
+				x.violate("%s: the block function panicked with %v but Transaction returned normally (%v): the panic was swallowed", where, fcPanic, cerr)
+				return 1, fmt.Errorf("swallowed panic"), nil
+			}
+			if outPanic != fcPanic {
+				x.violate("%s: panic value changed on the way out: panicked %#v, recovered %#v", where, fcPanic, outPanic)
+			}
+			return 2, nil, outPanic
+		case fcRet != nil:
+			failedAfterInner()
+			x.noteFailure()
+			if fired {
+				x.harnessEr = "fault fired after a failing block function"
+			}
+			if undo {
+				x.cur = snap
+			}
+			if outPanicked {
+				x.violate("%s: the block function returned %q but Transaction panicked with %v", where, fcRet, outPanic)
+				return 2, nil, outPanic
+			}
 			if cerr == nil {
+				x.violate("%s: the block function returned %q but Transaction returned nil: the error was lost", where, fcRet)
 				return 0, nil, nil
+			}
+			if !errors.Is(cerr, fcRet) {
+				x.violate("%s: the block function returned %q but Transaction returned %q", where, fcRet, cerr)
 			}
 			return 1, cerr, nil
 		}
-		x.class("fault-hit:" + x.faultHit)
+		// the block function returned nil
 		if outPanicked {
-			x.violate("%s: injected %s fault turned into panic %v", where, x.faultHit, outPanic)
+			x.violate("%s: the block function returned nil but Transaction panicked with %v", where, outPanic)
 			return 2, nil, outPanic
 		}
-		if !errors.Is(cerr, recdrv.ErrInjected) {
-			x.violate("%s: %s failed with the injected error but Transaction returned %v", where, x.faultHit, cerr)
-			cerr = recdrv.ErrInjected
-		}
-		return 1, cerr, nil
-	case fcPanicked:
-		failedAfterInner()
-		x.noteFailure()
-		if fired {
-			x.harnessEr = "fault fired after a panicking block function"
-		}
-		if undo {
+		if root && fired {
+			// COMMIT failed: nothing is durable and the error comes back
+			x.noteFailure()
+			x.class("fault-hit:commit")
 			x.cur = snap
+			if !errors.Is(cerr, recdrv.ErrInjected) {
+				x.violate("%s: COMMIT failed with the injected error but Transaction returned %v: the commit error was lost", where, cerr)
+				return 1, recdrv.ErrInjected, nil
+			}
+			return 1, cerr, nil
 		}
-		if !outPanicked {
-			x.violate("%s: the block function panicked with %v but Transaction returned normally (%v): the panic was swallowed", where, fcPanic, cerr)
-			return 1, fmt.Errorf("swallowed panic"), nil
-		}
-		if outPanic != fcPanic {
-			x.violate("%s: panic value changed on the way out: panicked %#v, recovered %#v", where, fcPanic, outPanic)
-		}
-		return 2, nil, outPanic
-	case fcRet != nil:
-		failedAfterInner()
-		x.noteFailure()
 		if fired {
-			x.harnessEr = "fault fired after a failing block function"
+			x.harnessEr = "fault fired after a nested block returned nil"
 		}
-		if undo {
-			x.cur = snap
+		if cerr != nil {
+			x.violate("%s: the block function returned nil and no fault was injected, but Transaction returned %q", where, cerr)
+			return 1, cerr, nil
 		}
-		if outPanicked {
-			x.violate("%s: the block function returned %q but Transaction panicked with %v", where, fcRet, outPanic)
-			return 2, nil, outPanic
+		for _, a := range sameAbove {
+			a.sameInnerOK = true
 		}
-		if cerr == nil {
-			x.violate("%s: the block function returned %q but Transaction returned nil: the error was lost", where, fcRet)
-			return 0, nil, nil
-		}
-		if !errors.Is(cerr, fcRet) {
-			x.violate("%s: the block function returned %q but Transaction returned %q", where, fcRet, cerr)
-		}
-		return 1, cerr, nil
+		return 0, nil, nil
 	}
-	// the block function returned nil
-	if outPanicked {
-		x.violate("%s: the block function returned nil but Transaction panicked with %v", where, outPanic)
-		return 2, nil, outPanic
-	}
-	if root && fired {
-		// COMMIT failed: nothing is durable and the error comes back
-		x.noteFailure()
-		x.class("fault-hit:commit")
-		x.cur = snap
-		if !errors.Is(cerr, recdrv.ErrInjected) {
-			x.violate("%s: COMMIT failed with the injected error but Transaction returned %v: the commit error was lost", where, cerr)
-			return 1, recdrv.ErrInjected, nil
-		}
-		return 1, cerr, nil
-	}
-	if fired {
-		x.harnessEr = "fault fired after a nested block returned nil"
-	}
-	if cerr != nil {
-		x.violate("%s: the block function returned nil and no fault was injected, but Transaction returned %q", where, cerr)
-		return 1, cerr, nil
-	}
-	for _, a := range sameAbove {
-		a.sameInnerOK = true
-	}
-	return 0, nil, nil
+	func() {
+		returned := false
+		defer func() {
+			if returned || x.goexit {
+				return
+			}
+			outPanicked, outPanic = true, recover()
+		}()
+		cerr = h.Transaction(func(tx *gorm.DB) (e error) {
+			entered++
+			normal := false
+			defer func() {
+				if normal || x.goexit {
+					return
+				}
+				r := recover()
+				fcPanicked, fcPanic = true, r
+				panic(r)
+			}()
+			e = x.runSteps(tx, child, &frame{kind: frNested})
+			normal = true
+			fcRet = e
+			return e
+		})
+		returned = true
+	}()
+	finished = true
+	return finish()
 }
 
 // manual runs tx := db.Begin(); steps…; tx.Commit()/tx.Rollback(). Any error
@@ -862,21 +1066,8 @@ func (x *runner) manual(h *gorm.DB, b *Body) {
 		panicked bool
 		pv       interface{}
 	)
-	func() {
-		defer func() {
-			if r := recover(); r != nil {
-				panicked, pv = true, r
-			}
-		}()
-		err = x.runSteps(tx, b, &frame{kind: frManual})
-	}()
-	if panicked || err != nil {
-		// defer tx.Rollback() of the idiomatic manual program
-		if panicked {
-			if _, ok := pv.(*panicVal); !ok {
-				panic(pv) // not one of ours: a harness or gorm crash
-			}
-		}
+	// `done := false; defer func() { if !done { tx.Rollback() } }()` of a careful manual program
+	rollback := func() {
 		if e := tx.Rollback().Error; e != nil && !errors.Is(e, err) {
 			// (a failed SavePoint leaves its error on the handle, which Rollback reports again)
 			x.violate("%s: Rollback after a failed step: unexpected error %q", where, e)
@@ -885,6 +1076,32 @@ func (x *runner) manual(h *gorm.DB, b *Body) {
 			x.harnessEr = "fault fired in ROLLBACK"
 		}
 		x.cur = snap
+	}
+	finished := false
+	defer func() {
+		if !finished && x.goexit {
+			rollback()
+		}
+	}()
+	func() {
+		returned := false
+		defer func() {
+			if returned || x.goexit {
+				return
+			}
+			panicked, pv = true, recover()
+		}()
+		err = x.runSteps(tx, b, &frame{kind: frManual})
+		returned = true
+	}()
+	finished = true
+	if panicked || err != nil {
+		if panicked && pv != nil {
+			if _, ok := pv.(*panicVal); !ok {
+				panic(pv) // not one of ours: a harness or gorm crash
+			}
+		}
+		rollback()
 		return
 	}
 	switch b.Out {
@@ -923,6 +1140,9 @@ type result struct {
 
 // runCase executes the case on a fresh database and returns the violations.
 func runCase(c Case) result {
+	if !panicNilIsNil {
+		return result{harnessErr: "panic(nil) does not recover as nil: the go:debug panicnil=1 directive is not in effect"}
+	}
 	d := testdb.Open(testdb.Options{Config: gorm.Config{
 		PrepareStmt:              c.Cfg.Prepare,
 		DisableNestedTransaction: c.Cfg.NoNest,
@@ -967,19 +1187,48 @@ func runCase(c Case) result {
 			x.class("session:" + st.Sess)
 			x.class("session:" + st.Sess + ":top-level-" + st.Op)
 		}
-		switch st.Op {
-		case opBlock:
-			kind, _, pv := x.callBlock(root, st.Child, true)
-			if kind == 2 {
-				if _, ok := pv.(*panicVal); !ok {
-					panic(pv)
+		runTop := func() {
+			switch st.Op {
+			case opBlock:
+				kind, _, pv := x.callBlock(root, st.Child, true)
+				if kind == 2 && pv != nil {
+					if _, ok := pv.(*panicVal); !ok {
+						panic(pv)
+					}
 				}
+			case opManual:
+				x.manual(root, st.Child)
+			case opBatch:
+				x.class("op:top-level-batch")
+				x.batch(root, st, "top level", false)
+			default:
+				x.class("op:top-level-" + st.Op)
+				_ = x.primitive(root, st, "top level")
 			}
-		case opManual:
-			x.manual(root, st.Child)
-		default:
-			x.class("op:top-level-" + st.Op)
-			_ = x.primitive(root, st, "top level")
+		}
+		if st.Child != nil && hasOutcome(st.Child, outGoexit) {
+			// a block of this step may end its goroutine: give it one and wait for it
+			done := make(chan struct{})
+			var crashed bool
+			var crash interface{}
+			go func() {
+				defer close(done)
+				ok := false
+				defer func() {
+					if !ok && !x.goexit {
+						crashed, crash = true, recover()
+					}
+				}()
+				runTop()
+				ok = true
+			}()
+			<-done
+			x.goexit = false
+			if crashed {
+				panic(crash)
+			}
+		} else {
+			runTop()
 		}
 		// the connection is back in the pool after every top-level step
 		if in := d.SQL.Stats().InUse; in != 0 {
@@ -1177,6 +1426,26 @@ func spNames(id, style int) []string {
 	return append(all, fmt.Sprintf("_%d_tmp_9", id), fmt.Sprintf("Sp%d_MixedCase_2", id), early)
 }
 
+// batchStep: CreateInBatches of 2–5 rows with fresh keys in batches of 1–3; one
+// row in three calls takes a key of the small pool instead, which fails the
+// batch it is in when that key is in the table at that moment.
+func (g *gen) batchStep() Step {
+	n := 2 + uniform(g.rt, "rows", 4)
+	st := Step{Op: opBatch, Size: 1 + uniform(g.rt, "size", 3), Swallow: uniform(g.rt, "swallow", 3) < 2}
+	for i := 0; i < n; i++ {
+		v := g.value()
+		st.Rows = append(st.Rows, KV{K: fmt.Sprintf("n%d", v), V: v})
+	}
+	if uniform(g.rt, "clash", 3) == 0 {
+		i := uniform(g.rt, "clashrow", n)
+		if i < st.Size && n > st.Size && rapid.Bool().Draw(g.rt, "later") {
+			i = st.Size + uniform(g.rt, "clashrow", n-st.Size) // rather not in the first batch
+		}
+		st.Rows[i].K = keys[uniform(g.rt, "key", len(keys))]
+	}
+	return st
+}
+
 // sess decorates a step with a session derived from the handle it uses.
 func (g *gen) sess(percent int) string {
 	if uniform(g.rt, "sess?", 100) >= percent {
@@ -1236,6 +1505,11 @@ func (g *gen) body(depth int, manual bool) *Body {
 		g.budget--
 		r := uniform(g.rt, "kind", 100)
 		switch {
+		case r < 7:
+			st := g.batchStep()
+			st.Via = g.via(depth, false)
+			st.Sess = g.sess(20)
+			b.Steps = append(b.Steps, st)
 		case r < primBelow || (r < blockBelow && depth >= g.maxDepth):
 			st := g.primitive(false)
 			st.Via = g.via(depth, false)
@@ -1276,7 +1550,8 @@ func (g *gen) body(depth int, manual bool) *Body {
 	if manual {
 		b.Out = []string{outCommit, outCommit, outRollback}[uniform(g.rt, "end", 3)]
 	} else {
-		b.Out = []string{outNil, outNil, outNil, outErr, outErr, outPanic}[uniform(g.rt, "outcome", 6)]
+		outs := []string{outNil, outNil, outNil, outNil, outNil, outNil, outNil, outErr, outErr, outErr, outErr, outPanic, outPanic, outPanic, outPanicNil, outGoexit}
+		b.Out = outs[uniform(g.rt, "outcome", len(outs))]
 	}
 	return b
 }
@@ -1305,6 +1580,10 @@ func genCase(rt *rapid.T) Case {
 		case r < 82:
 			g.startIdx = []int{-1}
 			c.Top.Steps = append(c.Top.Steps, Step{Op: opManual, Sess: g.sess(25), Child: g.body(1, true)})
+		case r < 87:
+			st := g.batchStep()
+			st.Sess = g.sess(25)
+			c.Top.Steps = append(c.Top.Steps, st)
 		default:
 			st := g.primitive(true)
 			st.Sess = g.sess(25)
@@ -1354,6 +1633,18 @@ func genCase(rt *rapid.T) Case {
 	return c
 }
 
+func hasOutcome(b *Body, out string) bool {
+	if b.Out == out {
+		return true
+	}
+	for _, st := range b.Steps {
+		if st.Child != nil && hasOutcome(st.Child, out) {
+			return true
+		}
+	}
+	return false
+}
+
 func usesSession(b *Body, kind string) bool {
 	for _, st := range b.Steps {
 		if st.Sess == kind || (st.Child != nil && usesSession(st.Child, kind)) {
@@ -1375,7 +1666,7 @@ func ownSavepoints(b *Body) {
 }
 
 const rule = "C04: programs on a key→value table: 1-3 top-level steps (db.Transaction tree of depth ≤4, manual Begin…Commit/Rollback, single write/read), " +
-	"block bodies of put/rawput/upd/del/read/SavePoint/RollbackTo/child-block steps ending in return nil | return error | panic, parents returning or swallowing a child's error " +
+	"block bodies of put/rawput/upd/del/read/SavePoint/RollbackTo/child-block/CreateInBatches steps (CreateInBatches opens its own block; a batch fails by fault or by a repeated key) ending in return nil | return error | panic(value) | panic(nil) | runtime.Goexit(), parents returning or swallowing a child's error " +
 	"and optionally recovering its panic, every step inside a block going through the block's own handle or the captured handle of any enclosing block (same transaction), optionally through a session derived from that handle (Session{PrepareStmt}, Session{}, Session{NewDB}, WithContext, Session{SkipHooks}, Session{Logger}); manual save point names short, long (67-110 bytes sharing the first 64+ bytes), with digits/underscores/mixed case, private per block; configuration bits PrepareStmt, DisableNestedTransaction, SkipDefaultTransaction; fault plan none or the k-th BEGIN/COMMIT/SAVEPOINT/statement/PREPARE " +
 	"driver call fails (never ROLLBACK / ROLLBACK TO); non-trivial = nesting depth ≥2 reached and at least one failure (block returning an error or panicking, fired fault) with successful writes both before and after it; " +
 	"distinct = configuration + fault plan + initial rows + program text"
